@@ -332,6 +332,9 @@ def check_open(case):
     rng = random.Random(case["index"])
     date = special[case["index"] % len(special)] if case["index"] % 3 else dt.date(2014, 1, 1) + dt.timedelta(days=rng.randrange(13149))
     orbit, frame = rng.randrange(100000), rng.randrange(10000)
+    if case.get("zero"):
+        # the smallest legal numbers: orbit 00000 and / or frame 0000 decode to the integer 0
+        orbit, frame = (0, frame) if case["zero"] == "orbit" else (orbit, 0) if case["zero"] == "frame" else (0, 0)
     spec = common.spec_from(
         {
             "level": level if level != "1.0" else "1.1",
@@ -443,6 +446,8 @@ def enum_cases(tier):
         yield {"kind": "open", "index": idx, "scan": scan}
         if i % 4 == 0:
             yield {"kind": "open", "index": idx, "scan": scan, "order": ["ids-first", "sorted", "reversed"][(i // 4) % 3]}
+    for zero in ("orbit", "frame", "both"):
+        yield {"kind": "open", "index": rng.randrange(3600), "scan": None, "zero": zero}
     for j, (what, order) in enumerate(itertools.product(["product", "scene", "both"], [None, "ids-first", "sorted", "reversed"])):
         case = {"kind": "open", "index": rng.randrange(3600), "scan": None, "bad_id": what}
         if order:
